@@ -58,4 +58,123 @@ theorem checkMinimalPush_eq (d : Bytes) (op : Nat) : checkMinimalPush d op = Scr
     have h1 : ¬ (r.length + 1 + 1 = 1) := by omega
     simp [h1]
 
+/-- the spec environment that corresponds to a model context (total oracles, no quirks) -/
+def envOf (T : TotalOracles) (c : Ctx) (leaf : Bytes) (annex : Option Bytes) : ScriptSpec.Env :=
+  ⟨T.toOracles, c.tx, ScriptSpec.Flags.ofMask c.flags, c.sv, {}, leaf, annex⟩
+
+/-- simulation relation of the conditional-free fragment -/
+structure Rel (c : Ctx) (st : St) (s : ScriptSpec.State) : Prop where
+  stack : st.stack = s.stack
+  alt : st.alt = s.alt
+  exe : st.exe = []
+  cond : s.cond = {}
+  opcnt : st.opcnt = s.opCount
+  code : c.p.drop st.pbegin = s.code
+  csp : st.ed.codesepPos = s.codesepPos
+  weight : st.ed.weightLeft = s.weightLeft
+
+/-- outcomes agree: both succeed in related states, or both fail (a model panic inside the loop is a failure
+    of evalScript; the spec names the error) -/
+inductive Agree (c : Ctx) : Res St → ScriptSpec.E ScriptSpec.State → Prop
+  | ok {a b} : Rel c a b → Agree c (.ok a) (.ok b)
+  | fail {e} : Agree c .fail (.error e)
+  | panic {e} : Agree c .panic (.error e)
+
+theorem agree_ok (c : Ctx) (a : St) (b : ScriptSpec.State) : Agree c (.ok a) (Except.ok b) ↔ Rel c a b :=
+  ⟨fun h => by cases h; assumption, Agree.ok⟩
+theorem agree_fail (c : Ctx) (e : ScriptSpec.ScriptError) : Agree c .fail (Except.error e) ↔ True := ⟨fun _ => trivial, fun _ => Agree.fail⟩
+theorem agree_panic (c : Ctx) (e : ScriptSpec.ScriptError) : Agree c .panic (Except.error e) ↔ True := ⟨fun _ => trivial, fun _ => Agree.panic⟩
+
+theorem envOf_f (T : TotalOracles) (c : Ctx) (l : Bytes) (a : Option Bytes) : (envOf T c l a).f = ScriptSpec.Flags.ofMask c.flags := rfl
+theorem envOf_sv (T : TotalOracles) (c : Ctx) (l : Bytes) (a : Option Bytes) : (envOf T c l a).sv = c.sv := rfl
+theorem envOf_O (T : TotalOracles) (c : Ctx) (l : Bytes) (a : Option Bytes) : (envOf T c l a).O = T.toOracles := rfl
+theorem envOf_tx (T : TotalOracles) (c : Ctx) (l : Bytes) (a : Option Bytes) : (envOf T c l a).tx = c.tx := rfl
+theorem envOf_q (T : TotalOracles) (c : Ctx) (l : Bytes) (a : Option Bytes) : (envOf T c l a).q = {} := rfl
+
+theorem flag_mindata (f : Nat) : has f VER_MINDATA = (ScriptSpec.Flags.ofMask f).minimaldata := by
+  unfold VER_MINDATA; rw [has_testBit]; rfl
+theorem flag_const (f : Nat) : has f VER_CONST_SCRIPTCODE = (ScriptSpec.Flags.ofMask f).constScriptcode := by
+  unfold VER_CONST_SCRIPTCODE; rw [has_testBit]; rfl
+theorem flag_nops (f : Nat) : has f VER_BLOCK_OPS = (ScriptSpec.Flags.ofMask f).discourageNops := by
+  unfold VER_BLOCK_OPS; rw [has_testBit]; rfl
+
+theorem tail_agree (c : Ctx) (X : Res St) (Y : ScriptSpec.E ScriptSpec.State) (h : Agree c X Y) :
+    Agree c (X >>= fun st' => if st'.stack.length + st'.alt.length > 1000 then Res.fail else pure st')
+      (Y >>= fun st => if st.stack.length + st.alt.length > 1000 then (do throw ScriptSpec.ScriptError.STACK_SIZE; pure st) else pure st) := by
+  cases h with
+  | fail => exact Agree.fail
+  | panic => exact Agree.panic
+  | ok h =>
+    rename_i a b
+    simp only [bind, Except.bind, Res.bind]
+    rw [h.stack, h.alt]
+    by_cases hs : b.stack.length + b.alt.length > 1000
+    · simp [hs, agree_fail, throw, throwThe, MonadExceptOf.throw]
+    · simp [hs, agree_ok, pure, Except.pure]; exact h
+
+/-- The frame of one loop iteration: size / count / disabled / CONST_SCRIPTCODE checks, pushes, and the final
+    1000-element check agree, provided the opcode-specific parts (`execOp` vs `execOpcode`) agree. -/
+theorem stepAt_frame (T : TotalOracles) (c : Ctx) (hO : c.O = T.toOracles) (leaf : Bytes) (annex : Option Bytes)
+    (st : St) (s : ScriptSpec.State) (op : Op) (i : ScriptSpec.Instr) (idx pos : Nat)
+    (hop : i.op = op.opcode) (hdata : i.data = op.push.getD [])
+    (hR : Rel c st s)
+    (H : op.opcode > 0x4e → ∀ st1 s1, Rel c st1 s1 →
+        Agree c (execOp c st1 op.opcode idx pos true) (ScriptSpec.execOpcode (envOf T c leaf annex) s1 i true pos)) :
+    Agree c (stepAt c st op idx pos) (ScriptSpec.execInstr (envOf T c leaf annex) s i pos) := by
+  obtain ⟨h1, h2, h3, h4, h5, h6, h7, h8⟩ := hR
+  obtain ⟨sstack, salt, scond, sop, scode, scsp, sw⟩ := s
+  simp only at h1 h2 h4 h5 h6 h7 h8
+  subst h4 h5
+  unfold stepAt ScriptSpec.execInstr
+  simp only [h3, hop, hdata, List.all_nil, ScriptSpec.Cond.allTrue, Option.isNone_none, envOf_f, envOf_sv,
+    MAX_SCRIPT_ELEMENT_SIZE, ScriptSpec.MAX_SCRIPT_ELEMENT_SIZE, MAX_OPS, ScriptSpec.MAX_OPS_PER_SCRIPT,
+    ScriptSpec.MAX_STACK_SIZE, ← isDisabled_eq, ← flag_const, ← flag_mindata, ← checkMinimalPush_eq]
+  by_cases hp : (op.push.getD []).length > 520
+  · simp [hp, agree_fail, agree_panic, bind, Except.bind, throw, throwThe, MonadExceptOf.throw]
+  by_cases hd : isDisabled op.opcode = true
+  · by_cases hcnt : ((c.sv == SigVersion.base || c.sv == SigVersion.witnessV0) && decide (op.opcode > 96)) = true
+    · by_cases h201 : st.opcnt + 1 > 201 <;>
+        simp [hp, hd, hcnt, h201, agree_fail, agree_panic, bind, Except.bind, throw, throwThe, MonadExceptOf.throw, pure, Except.pure]
+    · simp [hp, hd, hcnt, agree_fail, agree_panic, bind, Except.bind, throw, throwThe, MonadExceptOf.throw, pure, Except.pure]
+  by_cases hcs : (op.opcode == 171 && c.sv == SigVersion.base && has c.flags VER_CONST_SCRIPTCODE) = true
+  · by_cases hcnt : ((c.sv == SigVersion.base || c.sv == SigVersion.witnessV0) && decide (op.opcode > 96)) = true
+    · by_cases h201 : st.opcnt + 1 > 201 <;>
+        simp [hp, hd, hcs, hcnt, h201, agree_fail, agree_panic, bind, Except.bind, throw, throwThe, MonadExceptOf.throw, pure, Except.pure]
+    · simp [hp, hd, hcs, hcnt, agree_fail, agree_panic, bind, Except.bind, throw, throwThe, MonadExceptOf.throw, pure, Except.pure]
+  have main : ∀ n, Agree c
+      ((if decide (op.opcode ≤ 78) = true then
+            if (has c.flags VER_MINDATA && !checkMinimalPush (op.push.getD []) op.opcode) = true then Res.fail
+            else Res.ok (({ stack := st.stack, alt := st.alt, pbegin := st.pbegin, opcnt := n, ed := st.ed } : St).push (op.push.getD []))
+          else execOp c { stack := st.stack, alt := st.alt, pbegin := st.pbegin, opcnt := n, ed := st.ed } op.opcode idx pos true) >>=
+        fun st' => if List.length st'.stack + List.length st'.alt > 1000 then Res.fail else pure st')
+      ((if decide (op.opcode ≤ 78) = true then
+          if (has c.flags VER_MINDATA && !checkMinimalPush (op.push.getD []) op.opcode) = true then
+            throw ScriptSpec.ScriptError.MINIMALDATA
+          else pure (ScriptSpec.push ({ stack := sstack, alt := salt, opCount := n, code := scode, codesepPos := scsp, weightLeft := sw } : ScriptSpec.State) (op.push.getD []))
+        else
+          ScriptSpec.execOpcode (envOf T c leaf annex) ({ stack := sstack, alt := salt, opCount := n, code := scode, codesepPos := scsp, weightLeft := sw } : ScriptSpec.State) i true pos : ScriptSpec.E ScriptSpec.State) >>=
+        fun st => if st.stack.length + st.alt.length > 1000 then (do throw ScriptSpec.ScriptError.STACK_SIZE; pure st) else pure st) := by
+    intro n
+    apply tail_agree
+    have hR1 : Rel c { stack := st.stack, alt := st.alt, pbegin := st.pbegin, opcnt := n, ed := st.ed } ({ stack := sstack, alt := salt, opCount := n, code := scode, codesepPos := scsp, weightLeft := sw } : ScriptSpec.State) :=
+      ⟨h1, h2, rfl, rfl, rfl, h6, h7, h8⟩
+    by_cases hpush : op.opcode ≤ 78
+    · simp only [hpush, decide_true, ↓reduceIte]
+      by_cases hm : (has c.flags VER_MINDATA && !checkMinimalPush (op.push.getD []) op.opcode) = true
+      · simp [hm, agree_fail, throw, throwThe, MonadExceptOf.throw]
+      · simp only [hm, Bool.false_eq_true, ↓reduceIte, agree_ok, St.push, ScriptSpec.push, pure, Except.pure]
+        exact ⟨by simp [h1], h2, rfl, rfl, rfl, h6, h7, h8⟩
+    · simp only [hpush, decide_false, Bool.false_eq_true, ↓reduceIte]
+      have hgt : op.opcode > 78 := by omega
+      have := H hgt { stack := st.stack, alt := st.alt, pbegin := st.pbegin, opcnt := n, ed := st.ed } ({ stack := sstack, alt := salt, opCount := n, code := scode, codesepPos := scsp, weightLeft := sw } : ScriptSpec.State) hR1
+      exact this
+  by_cases hcnt : ((c.sv == SigVersion.base || c.sv == SigVersion.witnessV0) && decide (op.opcode > 96)) = true
+  · by_cases h201 : st.opcnt + 1 > 201
+    · simp [hp, hd, hcs, hcnt, h201, agree_fail, agree_panic, bind, Except.bind, throw, throwThe, MonadExceptOf.throw, pure, Except.pure]
+    · simp only [hp, hd, hcs, hcnt, h201, Bool.false_eq_true, ↓reduceIte, Bool.true_and, Bool.true_or, Bool.false_and, decide_false, pure_bind]
+      exact main (st.opcnt + 1)
+  · simp only [hp, hd, hcs, hcnt, Bool.false_eq_true, ↓reduceIte, Bool.true_and, Bool.true_or, Bool.false_and, pure_bind]
+    exact main st.opcnt
+
+
 end GocoinV.Proofs.C01
